@@ -290,11 +290,23 @@ def _plain_obj(x, depth=0):
     return _plain(x)
 
 
+def REPO_FOR_NATIVE():
+    from .source import REPO
+    return REPO
+
+
 def run_replay_file(path):
     """./check <ID> --replay <file>: re-run the recorded native witness."""
     sys.path.insert(0, os.path.dirname(os.path.dirname(os.path.abspath(__file__))))
     with open(path) as f:
         doc = json.load(f)
+    if doc.get("kind") in ("sim_monitor", "fn_monitor"):
+        sys.path.insert(0, REPO_FOR_NATIVE())
+        from rt import drivers
+        reproduced, text = drivers.replay_file(doc)
+        print(text)
+        print("REPRODUCED" if reproduced else "NOT-REPRODUCED (the clause holds on this tree)")
+        return 1 if reproduced else 0
     rep = doc.get("replay") or {}
     if not rep.get("function") or not rep.get("inputs"):
         print(f"replay file names obligation {doc.get('obligation')} and carries the solver output only (no-failing-input-found)")
